@@ -136,6 +136,9 @@ def instantiate(I, cls, args, kwargs, fr, site):
     h = INTRINSICS.get(qn) or INTRINSICS.get(cls.qualname)
     if h is not None:
         return h(I, None, args, kwargs, fr, site)
+    if E.contract_of(qn) is not None and E.contract_of(qn).get("constructor"):
+        # class whose construction is described by a contract (abstract value)
+        return apply_contract(I, E.contract_of(qn), qn, list(args), kwargs, fr, site)
     if E.is_exception_name(qn):
         ex = VExc(qn, args)
         init = E.find_attr(qn, "__init__")
